@@ -271,6 +271,92 @@ def rate_tie(ctx):
                           "(Float/RateTie.v no longer compiles); differing (count, period): " + res[0][:600])
 
 
+STORE_FAMILY = ("C01", "C02", "C03", "C04", "C05", "C06", "C07", "C08", "C17")
+STORE_TIE_THEOREMS = ['gen_p_get_is_model', 'gen_p_setnx_is_model', 'gen_p_cas_is_model', 'gen_a_get_is_model', 'gen_a_setnx_is_model', 'gen_a_cas_is_model', 'gen_b_get_is_model', 'gen_b_setnx_is_model', 'gen_b_cas_is_model', 'gen_cleanup_placement']
+
+STORE_TIE_AUDIT = """Require Import TC.Base.Map TC.Store.Stores TC.Store.GenStoreOps TC.Generated.StoreGen TC.Store.GenStoreTie.
+From Coq Require Import ZArith Bool.
+Open Scope Z_scope.
+Check gen_p_get_is_model : forall e now, gen_p_get (lift e) now = m_get e now.
+Check gen_a_get_is_model : forall e now, gen_a_get (lift e) now = m_get e now.
+Check gen_b_get_is_model : forall e now, gen_b_get (lift e) now = m_get e now.
+Check gen_p_setnx_is_model : forall e v ttl now,
+  eff_view (gen_p_setnx (lift e) v ttl now) = fst (m_setnx e v ttl now) /\\ eff_wf (gen_p_setnx (lift e) v ttl now).
+Check gen_b_setnx_is_model : forall e v ttl now,
+  eff_view (gen_b_setnx (lift e) v ttl now) = fst (m_setnx e v ttl now) /\\ eff_wf (gen_b_setnx (lift e) v ttl now).
+Check gen_a_setnx_is_model : forall e v ttl now,
+  (eff_view (gen_a_setnx (lift e) v ttl now), se_bump (gen_a_setnx (lift e) v ttl now)) = m_setnx e v ttl now /\\
+  eff_wf (gen_a_setnx (lift e) v ttl now).
+Check gen_p_cas_is_model : forall e old new ttl now,
+  eff_view (gen_p_cas (lift e) old new ttl now) = fst (m_cas e old new ttl now) /\\ eff_wf (gen_p_cas (lift e) old new ttl now).
+Check gen_b_cas_is_model : forall e old new ttl now,
+  eff_view (gen_b_cas (lift e) old new ttl now) = fst (m_cas e old new ttl now) /\\ eff_wf (gen_b_cas (lift e) old new ttl now).
+Check gen_a_cas_is_model : forall e old new ttl now,
+  (eff_view (gen_a_cas (lift e) old new ttl now), se_bump (gen_a_cas (lift e) old new ttl now)) = m_cas e old new ttl now /\\
+  eff_wf (gen_a_cas (lift e) old new ttl now).
+Check gen_cleanup_placement :
+  gen_p_cleans = (false, true, true) /\\ gen_a_cleans = (false, true, true) /\\ gen_b_cleans = (false, true, true).
+Check d_get_entry : forall K keqb d k now, d_get K keqb d k now = m_get (lookup keqb d k) now.
+Check d_setnx_entry : forall K keqb d k v ttl now, d_setnx K keqb d k v ttl now =
+  let r := m_setnx (lookup keqb d k) v ttl now in (apply_ins K keqb d k (fst (fst r)), snd (fst r), snd r).
+Check d_cas_entry : forall K keqb d k old new ttl now, d_cas K keqb d k old new ttl now =
+  let r := m_cas (lookup keqb d k) old new ttl now in (apply_ins K keqb d k (fst (fst r)), snd (fst r), snd r).
+""" + "".join("Print Assumptions %s.\n" % n for n in STORE_TIE_THEOREMS + ["d_get_entry", "d_setnx_entry", "d_cas_entry"])
+
+
+def store_tie(ctx):
+    """T1b for the stores: tools/extract_stores.py re-translates get / set_if_not_exists_with_ttl / compare_and_swap_with_ttl of the
+    three built-in stores into decision lists over the looked-up entry (Generated/StoreGen.v); Store/GenStoreTie.v proves them equal
+    to the entry-level functions the store models are made of.  Same three outcomes as source_tie."""
+    info = {"translator": "tools/extract_stores.py", "generated": "coq/Generated/StoreGen.v", "theorems": list(STORE_TIE_THEOREMS)}
+    ctx.coverage["source_tie_stores"] = info
+    rc, out = run([sys.executable, os.path.join(VERIF, "tools", "extract_stores.py")], timeout=60)
+    if rc != 0:
+        info["status"] = "translator failed"
+        ctx.notes.append("T1b store translator failed: " + out.strip()[-300:])
+        return
+    fb = "fallback" in out
+    if fb:
+        ctx.notes.append("T1b: " + out.strip()[:400])
+    with Lock("coq"):
+        coq_makefile()
+        rc, mout = run(["make", "-j%d" % NPROC, "Store/GenStoreTie.vo"], cwd=COQ, timeout=900)
+    if rc == 0:
+        wd = ctx.workdir()
+        fn = os.path.join(wd, "store_tie_audit.v")
+        with open(fn, "w") as f:
+            f.write(STORE_TIE_AUDIT)
+        rc2, aout = run(["coqc", "-q", "-noglob", "-Q", COQ, "TC", fn], timeout=300, cwd=wd)
+        closed = aout.count("Closed under the global context")
+        if rc2 == 0 and closed == len(STORE_TIE_THEOREMS) + 3:
+            info["status"] = ("fallback (sources not readable by the translator, text of the last verified tree): " if fb else "") + \
+                "proved: the translated trait methods of the three stores equal the models' entry-level functions for every entry and argument (axiom-free)"
+        else:
+            info["status"] = "tie compiled but its audit failed"
+            ctx.broken.append("T1b audit: pinned statements of Store/GenStoreTie.v no longer match or depend on axioms:\n" + "\n".join(aout.splitlines()[-10:]))
+        return
+    with Lock("coq"):
+        rc, dout = run(["make", "-j%d" % NPROC, "Store/GenStoreDiff.vo"], cwd=COQ, timeout=900)
+    if rc != 0:
+        info["status"] = "tie not proved; the translated sources do not compile against the model's vocabulary"
+        ctx.notes.append("T1b: Generated/StoreGen.v does not compile; T2 is the only tie for the store methods in this run")
+        return
+    res = coq_eval(ctx, "storediff", "Require Import TC.Store.GenStoreDiff.",
+                   ["(N.of_nat (List.length store_disagreements), cleans_ok, firstn 3 store_disagreements)"])
+    if res is None:
+        info["status"] = "tie not proved; lattice comparison did not evaluate"
+        ctx.notes.append("T1b: store lattice comparison did not evaluate")
+    elif re.match(r"=\s*\(0%N,\s*true", res[0].strip()):
+        info["status"] = "tie NOT proved for this tree, no differing input on the lattice; T2 decides"
+        ctx.notes.append("T1b: Store/GenStoreTie.v no longer compiles against the re-translated store methods, but they agree with the model on the whole "
+                         "comparison lattice; T2 is the only tie for the store methods in this run")
+    else:
+        info["status"] = "a store method differs from the model"
+        ctx.broken.append("T1b: a trait method of a built-in store, as translated from the current source, differs from the model the theorems are about "
+                          "(Store/GenStoreTie.v no longer compiles); (count, cleanup placement ok, first differing (store 0=periodic 1=adaptive 2=probabilistic, "
+                          "method 0=get 1=set_if_not_exists 2=compare_and_swap, entry (value, expiry), now, a, b, ttl)): " + res[0][:700])
+
+
 # ----------------------------------------------------------------------------- Coq
 
 def coq_makefile():
